@@ -509,6 +509,10 @@ func (tr *Translator) call(c *ECall) tv {
 			t = SPtr(t)
 		}
 		return tv{Lt(tr.allocOld, t), tyBool}
+	case "ptrlike":
+		return tv{App(SBool, "ptrlike", App(SInt, "tag", arg(0).t)), tyBool}
+	case "ptrval":
+		return tv{App(SInt, "pl_Int", arg(0).t), tyInt}
 	case "isfinite":
 		v := arg(0)
 		return tv{mk(SBool, "(not (or (fp.isNaN %[1]s) (fp.isInfinite %[1]s)))", v.t.S), tyBool}
